@@ -241,3 +241,36 @@ package idxfile
 //gvc:  kf F70 accepts: nr >= 1 && idxSize > lo + 8 * (nr - 1)
 //gvc:  ensures rejects: (hs == 20 || hs == 32) && result == nil ==> lo <= idxSize && idxSize <= lo + 8 * nr
 //gvc:end
+
+// 64-bit offset lookups of the in-memory index (property C53: no input makes
+// a reader panic; C10: a malformed index is rejected rather than answered
+// from). The 31 low bits of an Offset32 entry whose top bit is set come from
+// the file: they index the 64-bit table only when the whole 8-byte entry lies
+// inside it, otherwise the lookup fails with an error. (getOffset is a coarse
+// unit: that its position arguments lie inside the 32-bit table is its
+// callers' business -- findHashIndex's result, the iterators' counters -- and
+// not restated here; bucketOffset states it as a precondition.)
+//gvc:func (*MemoryIndex).getOffset
+//gvc:  props C10 C53
+//gvc:  theory int
+//gvc:  opt coarse
+//gvc:  opt frame args
+//gvc:  results off err
+//gvc:  let inside = 0 <= firstLevel && firstLevel < len(idx.Offset32) && 0 <= secondLevel && secondLevel < 0x1000000000000 && secondLevel * 4 + 4 <= len(idx.Offset32[firstLevel])
+//gvc:  let o32 = idx.Offset32[firstLevel][secondLevel * 4] * 16777216 + idx.Offset32[firstLevel][secondLevel * 4 + 1] * 65536 + idx.Offset32[firstLevel][secondLevel * 4 + 2] * 256 + idx.Offset32[firstLevel][secondLevel * 4 + 3]
+//gvc:  ensures small: inside && o32 < 0x80000000 ==> err == nil && off == o32
+//gvc:  ensures large: inside && o32 >= 0x80000000 && err == nil ==> 8 * (o32 - 0x80000000) + 8 <= len(idx.Offset64)
+//gvc:  ensures reject: inside && o32 >= 0x80000000 && 8 * (o32 - 0x80000000) + 8 > len(idx.Offset64) ==> err != nil
+//gvc:end
+
+//gvc:func (*idxfilePrefixIter).bucketOffset
+//gvc:  props C10 C53
+//gvc:  theory int
+//gvc:  results off err
+//gvc:  requires nn: i != nil
+//gvc:  requires pos: 0 <= pos && pos * 4 + 4 <= len(i.offset32)
+//gvc:  let o32 = i.offset32[pos * 4] * 16777216 + i.offset32[pos * 4 + 1] * 65536 + i.offset32[pos * 4 + 2] * 256 + i.offset32[pos * 4 + 3]
+//gvc:  ensures small: o32 < 0x80000000 ==> err == nil && off == o32
+//gvc:  ensures large: o32 >= 0x80000000 && err == nil ==> 8 * (o32 - 0x80000000) + 8 <= len(i.offset64)
+//gvc:  ensures reject: o32 >= 0x80000000 && 8 * (o32 - 0x80000000) + 8 > len(i.offset64) ==> err != nil
+//gvc:end
